@@ -353,7 +353,20 @@ func (r *Run) GrowthOracle(expectQuiescent bool) []string {
 				if has {
 					got = fmt.Sprint(cur.Num)
 				}
-				bad = append(bad, fmt.Sprintf("task %d: after the faults stopped the position is %s, expected %d", t.ID, got, want))
+				why := ""
+				for k := len(r.Steps) - 1; k >= 0; k-- {
+					if st := r.Steps[k]; w.SamePair(st.Tid, t) {
+						if st.Err != "" && st.Outcome == "OFailed" {
+							e := st.Err
+							if len(e) > 200 {
+								e = e[:200]
+							}
+							why = fmt.Sprintf(" (the task's last step, with no fault injected, failed: %s)", e)
+						}
+						break
+					}
+				}
+				bad = append(bad, fmt.Sprintf("task %d: after the faults stopped the position is %s, expected %d%s", t.ID, got, want, why))
 			}
 		}
 	}
@@ -963,4 +976,89 @@ func (r *Run) DepWindows() []string {
 		}
 	}
 	return out
+}
+
+// ---------------------------------------------------------------- C01: rows only of the declared event
+
+// eventKind: the generator's log kind that the event of a log-indexing shape selects.
+func (ig *IGSpec) eventKind() string {
+	switch ig.Shape {
+	case "log", "lognh", "logr", "dep", "depbd":
+		return "transfer"
+	case "appr":
+		return "decoy-topic"
+	case "created":
+		return "created"
+	case "tags":
+		return "tags"
+	}
+	return ""
+}
+
+// ForeignLogOracle ("nothing else is present", said per row): in the last
+// snapshot every row of a log-indexing integration sits on a log (block,
+// tx_idx, log_idx) of the final chain that IS a log of the declared event and
+// passes the declared address filter.  A row on a log of another event (same
+// topic count or not), or on no log at all, is reported with the kind of log
+// it was derived from.  Growth-only histories (the final chain contains every
+// block ever served).
+func (r *Run) ForeignLogOracle() []string {
+	w := r.W
+	var last *DbView
+	for _, e := range w.Rec.Events {
+		if e.Kind == "snap" {
+			last = e.Db
+		}
+	}
+	if last == nil {
+		return nil
+	}
+	var bad []string
+	for _, t := range w.Tasks {
+		want := t.Spec.eventKind()
+		if want == "" {
+			continue
+		}
+		final := w.Nodes[t.Info.SrcName].Hist.Last()
+		n := 0
+		for _, rw := range pairRows(last, w.pair(t)) {
+			var txi, li uint64
+			key := w.Names.KeyStr(rw.Key)
+			if _, err := fmt.Sscanf(key, "%d/%d/", &txi, &li); err != nil {
+				bad = append(bad, fmt.Sprintf("task %d (%s): row of block %d with key %s is not keyed by a log", t.ID, t.Spec.Shape, rw.BNum, key))
+				continue
+			}
+			var found *Log
+			if b := final.At(rw.BNum); b != nil {
+				for _, tx := range b.Txs {
+					for _, l := range tx.Logs {
+						if tx.Idx == txi && l.Idx == li {
+							found = l
+						}
+					}
+				}
+			}
+			msg := ""
+			switch {
+			case found == nil:
+				msg = "no log of the chain"
+			case found.Kind != want:
+				name := map[string]string{"transfer": "Transfer", "decoy-topic": "Approval", "decoy-count": "four-topic Transfer", "created": "Created",
+					"tags": "Tags", "decoy-nodata": "OwnershipTransferred", "decoy-short": "Ping"}[found.Kind]
+				msg = fmt.Sprintf("a%s %s log (kind %s: %d topics, %d bytes of data), not a log of the declared event", map[bool]string{true: "n"}[name == "Approval" || name == "OwnershipTransferred"], name, found.Kind, len(found.Topics), len(found.Data))
+			case t.Spec.AddrFlt && string(found.Addr) != string(TokenAddr):
+				msg = "a log of another contract than the declared address filter admits"
+			}
+			if msg != "" {
+				if n++; n <= 3 {
+					bad = append(bad, fmt.Sprintf("task %d (integration %q, shape %s): the table has a row for block %d tx %d log %d, which is %s",
+						t.ID, t.Info.IGName, t.Spec.Shape, rw.BNum, txi, li, msg))
+				}
+			}
+		}
+		if n > 3 {
+			bad = append(bad, fmt.Sprintf("task %d: %d such rows in all", t.ID, n))
+		}
+	}
+	return bad
 }
